@@ -310,6 +310,7 @@ func TestCheck(t *testing.T) {
 		"purego build of the library; group arithmetic itself is C14's subject",
 	)
 	engine.Explore(honestBody, engine.Opts{Name: "honest", Budget: engine.Budget(2*time.Minute, 15*time.Minute)})
+	engine.Explore(dependenceBody, engine.Opts{Name: "contribution-dependence", Budget: engine.Budget(2*time.Minute, 10*time.Minute)})
 	engine.Explore(historiesBody, engine.Opts{Name: "subcontext-histories", Budget: engine.Budget(2*time.Minute, 10*time.Minute)})
 	sec := engine.Explore(faultBody, engine.Opts{Name: "faults", Budget: engine.Budget(2*time.Minute, 20*time.Minute)})
 	histMu.Lock()
